@@ -15,7 +15,8 @@
 (*   FromCandidates  volatile-* only evict keys that have an expiry, and   *)
 (*                   nothing is evicted under noeviction                   *)
 (*   InOrder         LRU: the least recently used entry of the cache; LFU: *)
-(*                   an entry with the smallest access count               *)
+(*                   an entry with the smallest access count; and the      *)
+(*                   cache holds every key the policy may evict            *)
 (*   GoneCompletely  an evicted key is in no cache, not in the volatile    *)
 (*                   index and not in the dataset afterwards               *)
 (* and under noeviction a command that stores a value is refused while the *)
@@ -71,10 +72,22 @@ EvictOK(e, ev, S, strict) ==
               /\ \E v \in VictimMeta(ev) : \A c \in Cand(ev) : v.a <= c.a                     \* least frequently used
          [] OTHER -> TRUE
 
+\* "in the policy's order" is an order over ALL keys the policy may evict: the cache the victim is picked from
+\* must hold every one of them.  Judged for the keys that were there before the command and that the command
+\* does not name (those are in flux: the cache learns about them after the command).
+CmdKeys(e) == {<<e.db, e.cmd[i].s>> : i \in {j \in 2..Len(e.cmd) : IsSym(e.cmd[j])}}
+CandKeys(ev) == {<<ev.db, c.key>> : c \in Cand(ev)}
+CompleteOK(e, ev, S) ==
+    e.policy \in {"allkeys-lru", "volatile-lru", "allkeys-lfu", "volatile-lfu"} =>
+        \A x \in (DOMAIN st) \cap (DOMAIN S) :
+            (x[1] = ev.db /\ ~(x \in CmdKeys(e)) /\ (Volatile(e.policy) => (st[x].d # NoD /\ S[x].d # NoD)))
+                => x \in CandKeys(ev)
+
 RECURSIVE EvictFold(_, _, _, _)
 EvictFold(e, evs, S, strict) ==
     IF evs = <<>> THEN TRUE
-    ELSE EvictOK(e, Head(evs), S, strict) /\ EvictFold(e, Tail(evs), Minus(S, {<<Head(evs).db, Head(evs).key>>}), strict)
+    ELSE /\ EvictOK(e, Head(evs), S, strict) /\ CompleteOK(e, Head(evs), S)
+         /\ EvictFold(e, Tail(evs), Minus(S, {<<Head(evs).db, Head(evs).key>>}), strict)
 
 Gone(e) == {<<e.evicts[i].db, e.evicts[i].key>> : i \in DOMAIN e.evicts}
 
